@@ -183,7 +183,11 @@ def _replace_returns(body, mk):
 def _inline_call(methods, call, how, target, depth, stop=(), ho_only=False, impure=False):
     """-> list of statements replacing the statement that contains `call`, or None"""
     f = call.func
-    if isinstance(f, ast.Name) and ('func:' + f.id) in methods and f.id.startswith('_') and not f.id.startswith('__') and f.id not in stop:
+    if isinstance(f, ast.Name) and ('local:' + f.id) in methods and f.id not in stop:
+        # a function nested in the same enclosing function (a closure-level helper: private by construction)
+        callee = methods['local:' + f.id]
+        params = [a.arg for a in callee.args.args]
+    elif isinstance(f, ast.Name) and ('func:' + f.id) in methods and f.id.startswith('_') and not f.id.startswith('__') and f.id not in stop:
         # private module-level helper
         callee = methods['func:' + f.id]
         params = [a.arg for a in callee.args.args]
@@ -302,6 +306,8 @@ def _callable_vars(body):
 
 def _is_private_helper_call(methods, c, stop):
     f = c.func
+    if isinstance(f, ast.Name) and ('local:' + f.id) in methods:
+        return f.id not in stop
     if isinstance(f, ast.Name):
         return ('func:' + f.id) in methods and f.id.startswith('_') and not f.id.startswith('__') and f.id not in stop
     return isinstance(f, ast.Attribute) and isinstance(f.value, ast.Name) and f.value.id == 'self' and f.attr in methods \
